@@ -2,9 +2,11 @@ package main
 
 // Typed random MPCL program generator for C03.  Every choice derives from
 // the per-case Rng.  Only constructs whose meaning the documentation / the
-// annotated test programs fix are produced; three shapes on which the pinned
-// compiler is known to deviate are produced only in separately tagged probe
-// programs (Program.Defect != ""):
+// annotated test programs fix are produced; shapes on which the compiler is
+// known to deviate are produced only in separately tagged probe programs
+// (Program.Defect != "").  Of the classes below lit_signed_narrow,
+// const_cast_shared, const_left_unsigned and named_result_zero are REPAIRED in
+// /repo (see `repaired`): those shapes now occur in ordinary programs too.
 //
 //   lit_signed_narrow    intN (N < 32) operand against an untyped literal in
 //                        / % < <= > >= (the literal is a 32-bit constant and
@@ -262,14 +264,38 @@ func riskyOp(op string) bool {
 	return false
 }
 
+// repaired lists the formerly deviating shapes the compiler handles since the
+// `fix:` commits 4accfb7, 3c18dfa, dfc60cc, 86f919b of /repo: they are
+// ordinary cases now (any disagreement on them is a violation).
+var repaired = map[string]bool{"lit_signed_narrow": true, "const_cast_shared": true,
+	"const_left_unsigned": true, "named_result_zero": true}
+
+// shape decides whether a (formerly) deviating shape is emitted here.  A
+// repaired shape appears in every program class (more densely in its old
+// class) and is only counted; a still deviating one appears only in its probe
+// class and marks the program (Program.Defect).
+func (g *gen) shape(kind string, pctOrdinary int) bool {
+	if repaired[kind] {
+		if g.opts.defect == kind || g.pct(pctOrdinary) {
+			g.tag("shape_" + kind)
+			return true
+		}
+		return false
+	}
+	if g.opts.defect == kind {
+		g.hit[kind] = true
+		return true
+	}
+	return false
+}
+
 func (g *gen) typeConst(e *Expr, op string) {
 	bits := 32
 	if e.K == "lit" {
 		bits = constBits(e.N)
 	}
 	if e.T.Signed() && e.T.W < bits && riskyOp(op) {
-		if g.opts.defect == "lit_signed_narrow" {
-			g.hit["lit_signed_narrow"] = true
+		if g.shape("lit_signed_narrow", 50) {
 			return
 		}
 		e.Typed = true
@@ -287,11 +313,8 @@ func (g *gen) typeConst(e *Expr, op string) {
 		} else if !e.T.Signed() {
 			kind = "const_cast_shared"
 		}
-		if kind != "" {
-			if g.opts.defect != kind {
-				return
-			}
-			g.hit[kind] = true
+		if kind != "" && !g.shape(kind, 50) {
+			return
 		}
 		e.Typed = true
 		g.tag("typed_literal")
@@ -804,8 +827,7 @@ func (g *gen) cmp(d int) *Expr {
 				if !wide {
 					g.tag("cmp_literal_left")
 					a, b = b, a
-				} else if g.opts.defect == "const_left_unsigned" {
-					g.hit["const_left_unsigned"] = true
+				} else if g.shape("const_left_unsigned", 100) {
 					a, b = b, a
 				}
 			}
@@ -1459,9 +1481,8 @@ func (g *gen) function(name string, index int, params []Param, results []*Ty, na
 	}
 	var body []*Stmt
 	if named {
-		if g.opts.defect == "named_result_zero" {
-			g.hit["named_result_zero"] = true
-		} else {
+		// otherwise the results start as zero values (Go semantics; /repo 4accfb7)
+		if !g.shape("named_result_zero", 40) {
 			// like the shipped named_return*.mpcl programs: every named result is
 			// assigned before anything reads it
 			hidden := g.vars[len(params):]
